@@ -6,7 +6,9 @@
    (vm_compute) on both with the same inputs and the observable traces are compared;
  * tie of Venom.v to the real back end: snapshots are compiled by the real Venom back end and run on pyrevm vs `vrun`.
 """
+import json
 import os
+import re
 import time
 
 from vlib import c14_pass_export as X
@@ -161,33 +163,150 @@ def _keccak(b):
     return int.from_bytes(keccak(bytes(b)), "big")
 
 
-HEADER = ("From Verif Require Import Base.Word256 C14.Venom.\n"
+HEADER = ("From Verif Require Import Base.Word256 C14.Venom C14.VenomCall.\n"
           f"Definition FUEL : nat := {FUEL}%nat.\n"
-          "Definition tvc (ra rb : halt * store) (S : store) : list Z :=\n"
-          "  let c := obs_cmp (observe S ra) (observe S rb) in\n"
-          "  if c =? 1 then c :: stuck_info ra ++ (-1) :: stuck_info rb ++ [-2] else [c; -2].\n")
+          "Definition tvc (ra rb : chalt * store) (S : store) : list Z :=\n"
+          "  let c := obs_cmp (cobserve S ra) (cobserve S rb) in\n"
+          "  if c =? 1 then c :: cstuck_info ra ++ (-1) :: cstuck_info rb ++ [-2] else [c; -2].\n")
+
+_INVOKE_RE = re.compile(r'invoke @("(?:[^"\\]|\\.)*"|[0-9A-Za-z_]+)')
+
+
+def fn_norm(name):
+    """function names are recorded as printed labels (quoted when not an identifier)"""
+    if name.startswith('"'):
+        try:
+            return json.loads(name)
+        except ValueError:
+            return name.strip('"')
+    return name
+
+
+def split_data(text):
+    """snapshot text = function + data segment -> (function part, data part)"""
+    k = text.find("\ndata readonly {")
+    return (text, "") if k < 0 else (text[:k], text[k:])
 
 
 class Group:
-    """all selected pass invocations of one (program, level): shares snapshot definitions and inputs"""
+    """all selected pass invocations of one (program, level): shares function definitions, contexts and inputs.
+    A configuration = (text of the function the run starts in, the other functions of the context); it is what `crun`
+    (coq/C14/VenomCall.v) is evaluated on."""
 
-    def __init__(self, prog, level, inputs, storages):
+    def __init__(self, prog, level, inputs, storages, texts=None, top="runtime"):
         self.prog, self.level, self.inputs, self.storages = prog, level, inputs, storages
-        self.pairs = []          # (snap record, hash before, hash after)
-        self.terms = {}          # hash -> coq term
-        self.meta = {}           # hash -> export dict
+        self.texts = texts or {}         # hash -> function text (context functions recorded by the harness)
+        self.top = top
+        self.pairs = []                  # (snap record, configuration id before, configuration id after)
+        self.meta = {}                   # function text hash -> export dict
+        self.fname = {}                  # function text hash -> function name
+        self.cfgs = {}                   # configuration id -> (top hash, {callee name: hash})
+        self.ctxs = {}                   # context key -> {callee name: hash}
+        self.fn_index = {}
+        self.namers = {}
         self.hashes = [dict() for _ in inputs]     # per input: preimage(bytes) -> digest
         self.defs_module = None
 
+    def register(self, snaps):
+        names = {fn_norm(s["fn"]) for s in snaps}
+        for s in snaps:
+            names |= {fn_norm(n) for n in s.get("ctx", {})}
+        self.fn_index = {n: k for k, n in enumerate(sorted(names))}
+
+    def _export(self, h, name, text):
+        if h not in self.meta:
+            name = fn_norm(name)
+            nm = self.namers.get(name)
+            if nm is None:
+                nm = self.namers[name] = X.Namer(fn_index=self.fn_index, fn_k=self.fn_index.get(name, 0) + 1)
+            self.meta[h] = X.export_text(text, nm)
+            self.fname[h] = name
+        return self.meta[h] is not None
+
+    def _config(self, top_h, top_text, callees):
+        """callees: {name: hash}; keep those reachable through invoke; -> configuration id or None"""
+        if not self._export(top_h, self.top, top_text):
+            return None
+        reach, work = {}, [top_text]
+        by_name = {fn_norm(n): h for n, h in callees.items()}
+        while work:
+            t = work.pop()
+            for m in _INVOKE_RE.finditer(t):
+                n = fn_norm(m.group(1))
+                if n in by_name and n not in reach:
+                    h = by_name[n]
+                    txt = self.texts.get(h)
+                    if txt is None or not self._export(h, n, txt):
+                        return None
+                    reach[n] = h
+                    work.append(txt)
+        ckey = X.text_hash("|".join(f"{n}:{h}" for n, h in sorted(reach.items())))[:10]
+        self.ctxs[ckey] = reach
+        cid = f"{top_h}_{ckey}"
+        self.cfgs[cid] = (top_h, ckey)
+        return cid
+
+    def add(self, snap):
+        hb, ha = X.text_hash(snap["before"]), X.text_hash(snap["after"])
+        ctx = dict(snap.get("ctx", {}))
+        fn = fn_norm(snap["fn"])
+        if fn == self.top:
+            cb = self._config(hb, snap["before"], ctx)
+            ca = self._config(ha, snap["after"], ctx)
+        else:
+            # a pass on an internal function: the runs start in `runtime` as it is at that moment
+            tops = [h for n, h in ctx.items() if fn_norm(n) == self.top]
+            if not tops or tops[0] not in self.texts:
+                return False
+            self.texts[hb], self.texts[ha] = snap["before"], snap["after"]
+            cb = self._config(tops[0], self.texts[tops[0]], dict(ctx, **{snap["fn"]: hb}))
+            ca = self._config(tops[0], self.texts[tops[0]], dict(ctx, **{snap["fn"]: ha}))
+            if cb == ca:
+                return False           # the function is not reachable from `runtime`
+        if cb is None or ca is None:
+            return False
+        self.pairs.append((snap, cb, ca))
+        return True
+
+    def context_text(self, cid):
+        """the configuration as one Venom source (all functions + the data segment), for the real back end"""
+        top_h, ckey = self.cfgs[cid]
+        top_text = self._text(top_h)
+        body, data = split_data(top_text)
+        parts = [body] + [split_data(self._text(h))[0] for _, h in sorted(self.ctxs[ckey].items())]
+        return "\n\n".join(parts) + data
+
+    def _text(self, h):
+        if h in self.texts:
+            return self.texts[h]
+        for s, _, _ in self.pairs:
+            if X.text_hash(s["before"]) == h:
+                return s["before"]
+            if X.text_hash(s["after"]) == h:
+                return s["after"]
+        raise KeyError(h)
+
+    def _defs(self, cids):
+        fhs, cks = set(), set()
+        for c in cids:
+            top_h, ckey = self.cfgs[c]
+            fhs.add(top_h)
+            cks.add(ckey)
+            fhs |= set(self.ctxs[ckey].values())
+        out = [f"Definition f_{h} : func := {self.meta[h]['term']}." for h in sorted(fhs)]
+        for ck in sorted(cks):
+            items = "; ".join(f"({X.FN_BASE + self.fn_index[n]}%positive, f_{h})" for n, h in sorted(self.ctxs[ck].items()))
+            out.append(f"Definition C_{ck} : ctxt := ctxt_of [{items}].")
+        return out
+
     def compile_defs(self, tag):
-        """snapshot terms are type-checked once per group (a .vo under coq/cases), not once per evaluation round"""
+        """function and context terms are type-checked once per group (a .vo under coq/cases), not once per evaluation round"""
         mod = f"c14snap_{tag}"
         path = COQ / "cases" / f"{mod}.v"
         path.parent.mkdir(exist_ok=True)
-        body = ["From Verif Require Import Base.Word256 C14.Venom.", "From Coq Require Import ZArith List.", "Import ListNotations.",
-                "Open Scope Z_scope."]
-        for h in sorted({h for pr in self.pairs for h in pr[1:]}):
-            body.append(f"Definition f_{h} : func := {self.meta[h]['term']}.")
+        body = ["From Verif Require Import Base.Word256 C14.Venom C14.VenomCall.", "From Coq Require Import ZArith List.",
+                "Import ListNotations.", "Open Scope Z_scope."]
+        body += self._defs({c for pr in self.pairs for c in pr[1:]})
         path.write_text("\n".join(body) + "\n")
         r = coqrun.coqc(path, timeout=600)
         if not r["ok"]:
@@ -206,31 +325,21 @@ class Group:
             if aux.exists():
                 aux.unlink()
 
-    def add(self, snap):
-        hb, ha = X.text_hash(snap["before"]), X.text_hash(snap["after"])
-        for h, k in ((hb, "before"), (ha, "after")):
-            if h not in self.meta:
-                self.meta[h] = X.export_text(snap[k])
-        if self.meta[hb] is None or self.meta[ha] is None:
-            return False
-        self.pairs.append((snap, hb, ha))
-        return True
-
     def coq(self, todo):
         """todo: list of (pair index, input index, storage index) -> (imports, exprs)"""
-        out = [HEADER.replace("C14.Venom.", f"C14.Venom cases.{self.defs_module}.") if self.defs_module else HEADER]
+        out = [HEADER.replace("C14.VenomCall.", f"C14.VenomCall cases.{self.defs_module}.") if self.defs_module else HEADER]
         if not self.defs_module:
-            for h in sorted({h for (p, _, _) in todo for h in self.pairs[p][1:]}):
-                out.append(f"Definition f_{h} : func := {self.meta[h]['term']}.")
+            out += self._defs({c for (p, _, _) in todo for c in self.pairs[p][1:]})
         for i in sorted({i for (_, i, _) in todo}):
             inp = self.inputs[i]
             tbl = [(list(k), v) for k, v in sorted(self.hashes[i].items())]
             out.append(f"Definition E{i} : env := {X.coq_env(bytes.fromhex(inp['data']), _words(inp, ADDR_WORD), tbl)}.")
         for j in sorted({j for (_, _, j) in todo}):
             out.append(f"Definition S{j} : store := {X.coq_store(self.storages[j])}.")
-        runs = sorted({(h, i, j) for (p, i, j) in todo for h in self.pairs[p][1:]})
-        for h, i, j in runs:
-            out.append(f"Definition r_{h}_{i}_{j} := Eval vm_compute in (vrun FUEL E{i} no_oracle f_{h} S{j}).")
+        runs = sorted({(c, i, j) for (p, i, j) in todo for c in self.pairs[p][1:]})
+        for c, i, j in runs:
+            top_h, ck = self.cfgs[c]
+            out.append(f"Definition r_{c}_{i}_{j} := Eval vm_compute in (crun FUEL E{i} no_oracle C_{ck} f_{top_h} S{j}).")
         exprs = []
         by_pair = {}
         for (p, i, j) in todo:
@@ -270,7 +379,7 @@ def _needs(info):
             need.append(bytes(p[1:]))
             why.append("hash")
         elif p and p[0] == 1:
-            why.append("op:" + (X.UNKNOWN.names[p[1]] if p[1] < len(X.UNKNOWN.names) else "?"))
+            why.append("op:" + (X.UNKNOWN.names[p[1]] if 0 <= p[1] < len(X.UNKNOWN.names) else {-1: "invoke", -2: "ret"}.get(p[1], "?")))
         elif p and p[0] == 11:
             why.append("poison:" + {1: "branch", 2: "assert", 4: "key", 5: "hash", 6: "index", 7: "fmp"}.get(p[1], "?"))
         elif p and p[0] != 0:
@@ -315,7 +424,7 @@ def detail_mismatch(g, p, i, j, tag):
     todo = [(p, i, j)]
     imports, _, _ = g.coq(todo)
     _, hb, ha = g.pairs[p]
-    outs = coqrun.eval_zlists(imports, [f"render (observe S{j} r_{hb}_{i}_{j})", f"render (observe S{j} r_{ha}_{i}_{j})"],
+    outs = coqrun.eval_zlists(imports, [f"render (cobserve S{j} r_{hb}_{i}_{j})", f"render (cobserve S{j} r_{ha}_{i}_{j})"],
                               f"c14tvd_{tag}", shard=10 ** 9, timeout=300)
     return [X.decode_render(o) for o in outs]
 
@@ -440,11 +549,16 @@ def _select(ctx, progs, forced=()):
     rnd = ctx.rng("c14p-tv")
     quick = ctx.tier == "quick"
     by_group = {}
+    internal = {}
     for name, pr in sorted(progs.items()):
         for s in pr["snaps"]:
             if s["fn"] != "runtime":
                 continue
             by_group.setdefault((name, s["level"]), []).append(s)
+        # passes on internal functions, validated in their calling context (runs start in `runtime`)
+        for s in pr["snaps"]:
+            if s["fn"] not in ("runtime", "deploy") and s.get("ctx") and (name, s["level"]) in by_group:
+                internal.setdefault((name, s["level"]), []).append(s)
     # hand-written IR programs: one group per program holding the invocations of all its pipelines (always included)
     hand_keys = []
     for (name, lvl) in sorted(by_group):
@@ -496,10 +610,10 @@ def _select(ctx, progs, forced=()):
         inputs = pr["inputs"][: (6 if quick else 12)]
         if not inputs:
             continue
-        g = Group(name, lvl, inputs, storages)
+        g = Group(name, lvl, inputs, storages, texts=dict(pr.get("texts", {})))
         ss = sorted(by_group[(name, lvl)], key=lambda s: s["idx"])
-        g.first_text, g.final_text = ss[0]["after"], ss[-1]["after"]
-        g.final_hash = X.text_hash(g.final_text)
+        g.register(ss + ([] if lvl == "hand" else [s for s in pr["snaps"] if s["level"] == lvl]))
+        g.first_snap, g.final_snap = ss[0], ss[-1]
         if quick:
             forced = [ss[0], ss[-1]]
             rest = [s for s in ss[1:-1]]
@@ -517,6 +631,15 @@ def _select(ctx, progs, forced=()):
             if g.add(s):
                 cover[s["pass"]] = cover.get(s["pass"], 0) + 1
         g.rejected = len(pick) - len(g.pairs)
+        # internal functions: a seeded sample in quick, the unvalidated passes in thorough
+        ints = [s for s in internal.get((name, lvl), []) if quick or s["pass"] not in VALIDATED]
+        if quick:
+            rnd.shuffle(ints)
+            ints.sort(key=lambda s: (s["pass"] in VALIDATED, cover.get("int:" + s["pass"], 0)))
+            ints = ints[:3]
+        for s in ints:
+            if g.add(s):
+                cover["int:" + s["pass"]] = cover.get("int:" + s["pass"], 0) + 1
         if g.pairs:
             groups.append(g)
     return groups, cover
@@ -614,8 +737,8 @@ def _report_tv_mismatch(ctx, progs, g, p, i, j, tag):
     confirmed = None
     if j == 0:
         try:
-            cb = snapshot_bytecode(snap["before"], skip=(snap["pass"],))
-            ca = snapshot_bytecode(snap["after"], skip=(snap["pass"],))
+            cb = snapshot_bytecode(g.context_text(hb), skip=(snap["pass"],))
+            ca = snapshot_bytecode(g.context_text(ha), skip=(snap["pass"],))
             eb, ea = evm_run(cb, inp), evm_run(ca, inp)
             sig = lambda e: (e["ok"], e["out"], e["logs"], e["halt"])   # noqa
             confirmed = sig(eb) != sig(ea)
@@ -641,23 +764,22 @@ def _tie(ctx, progs, g, stats, tag, which="final"):
     found = False
     entry = progs[g.prog]["entry"]
     final = which == "final"
-    text = g.final_text if final else g.first_text
-    h = X.text_hash(text)
-    if h not in g.meta or g.meta[h] is None:
+    snap = g.final_snap if final else g.first_snap
+    cand = [p for p in range(len(g.pairs)) if g.pairs[p][0] is snap]
+    if not cand:
         return False
+    p_last = cand[0]
+    h = g.pairs[p_last][2]                 # configuration after the pass: `runtime` + the functions it calls
+    text = g.context_text(h)
     try:
         code = snapshot_bytecode(text, final=final)
     except Exception as e:  # noqa
         stats["tie_compile_failed"] += 1
         return False
-    sel = max if final else min
-    p_last = sel(range(len(g.pairs)), key=lambda p: g.pairs[p][0]["idx"])
-    if g.pairs[p_last][2] != h:
-        return False
     tag = f"{tag}_{which}"
     todo = [(p_last, i, 0) for i in range(len(g.inputs))]
     imports, _, _ = g.coq(todo)
-    exprs = [f"render (observe S0 r_{h}_{i}_0)" for i in range(len(g.inputs))]
+    exprs = [f"render (cobserve S0 r_{h}_{i}_0)" for i in range(len(g.inputs))]
     try:
         outs = coqrun.eval_zlists(imports, exprs, f"c14tie_{tag}", shard=10 ** 9, timeout=600)
     except Exception as e:  # noqa
